@@ -2,6 +2,7 @@ import Vanguard.Lemmas.Headers
 import Vanguard.Lemmas.TargetHeaders
 import Vanguard.Model.Run
 import Vanguard.Lemmas.ReframeStream
+import Vanguard.Lemmas.WellFramed
 /-!
   C02 — Backend sees only valid requests in a protocol, codec and compression it accepts.
 
@@ -177,5 +178,32 @@ theorem backend_envelopes_describe_their_payloads (ce se : Enveloper) (x : Frame
     cases se <;> simp [hnt]
   · rw [← hlen]
     exact fromBe32_be32 env.length (by omega) _ _ _ _ rfl
+
+/-! ### the body the backend reads is well framed
+
+  `WellFramed` (`Lemmas/WellFramed.lean`): a sequence of five-byte envelopes - flag byte 0 or 1, big-endian
+  length - each followed by exactly as many payload bytes as it announces. -/
+
+/-- **Re-encoding path**: for a well-formed request body (legal client frames, every message convertible)
+    a backend with envelopes reads, whatever its buffer sizes, a well-framed stream and then `io.EOF`. -/
+theorem backend_body_is_well_framed (w : World) (pl : HandlePlan) (ce se : Enveloper) (fs : List Frame)
+    (st : St) (ns : List Nat) (out o : Bytes) (e : Err)
+    (hprep : pl.clientReqNeedsPrep = false) (hce : st.op.clientEnveloper = some ce) (hse : st.op.serverEnveloper = some se)
+    (hok : ∀ x ∈ fs, x.ok ce st.op.conf.maxMsg) (hd : st.src.data = framesBytes fs)
+    (he : st.src.ending ≠ .unexpected) (hconv : convertedAll w pl st ce fs = some out)
+    (hmax : st.op.conf.maxMsg < 4294967296) (hreads : Reads w pl st {} ns o e) : WellFramed o ∧ e = .eof := by
+  have hs := clean_stream w pl ce hprep fs st false out hce hok hd he hconv
+  have hr := hreads.stream ⟨by decide, fun h => by simp at h⟩ rfl
+  obtain ⟨h1, h2⟩ := hr.det hs
+  exact ⟨h1 ▸ convertedAll_wellFramed w pl st ce se hse hmax fs out hconv, h2⟩
+
+/-- **Re-framing path**: the same for a backend that is handed the client's payloads under its own envelopes. -/
+theorem backend_body_is_well_framed_reframed (w : World) (ce se : Enveloper) (st : St) (fs : List Frame)
+    (ns : List Nat) (o : Bytes) (e : Err)
+    (hce : st.op.clientEnveloper = some ce) (hse : st.op.serverEnveloper = some se)
+    (hok : ∀ x ∈ fs, x.ok ce st.op.conf.maxMsg) (hd : st.src.data = framesBytes fs) (he : st.src.ending ≠ .unexpected)
+    (hmax : st.op.conf.maxMsg < 4294967296) (hreads : EReads w st {} ns o e) : WellFramed o ∧ e = .eof := by
+  obtain ⟨h1, h2⟩ := reframed_clean_stream w ce se st fs ns o e hce hse hok hd he hreads
+  exact ⟨h1 ▸ reframedAll_wellFramed ce se _ hmax fs hok, h2⟩
 
 end Vanguard.C02
